@@ -26,6 +26,7 @@ import (
 	"github.com/dappledger/AnnChain/gemmill/go-wire"
 	gcmn "github.com/dappledger/AnnChain/gemmill/modules/go-common"
 	"github.com/dappledger/AnnChain/gemmill/modules/go-log"
+	"github.com/dappledger/AnnChain/gemmill/modules/verifhook"
 	"github.com/dappledger/AnnChain/gemmill/p2p"
 	sm "github.com/dappledger/AnnChain/gemmill/state"
 	"github.com/dappledger/AnnChain/gemmill/types"
@@ -531,6 +532,7 @@ func (conR *ConsensusReactor) gossipVotesRoutine(peer *p2p.Peer, ps *PeerState) 
 
 OUTER_LOOP:
 	for {
+		verifhook.Point("pbft.gossipVotes")
 		// Manage disconnects from self or peer.
 		if !peer.IsRunning() || !conR.IsRunning() {
 			log.Infof("Stopping gossipVotesRoutine for %v.", peer)
